@@ -269,6 +269,17 @@ func c15(c *Ctx) {
 			}
 		}
 	}
+	if c.Tier == "thorough" {
+		// second configuration: 32-bit target. There int is 32 bits, so int(uint32) can be negative and
+		// header+length can wrap: the rejection structure above is established for 64-bit targets only.
+		if p32, err := core.LoadPatterns(p.Repo, []string{"./portalwire"}, 1, false, "GOARCH=386", "CGO_ENABLED=0"); err != nil {
+			r.Note("R2.slice-guard", "GOARCH=386 configuration", "-", "could not be loaded: "+err.Error())
+		} else {
+			sz := p32.Pkgs[0].TypesSizes.Sizeof(types.Typ[types.Int])
+			r.Note("R2.slice-guard", "GOARCH=386 configuration", "-", fmt.Sprintf("type-checks; int is %d bytes there: a length prefix >= 2^31 makes int(length) negative - the 64-bit argument of R2 (no-wrap) does not carry over; configuration observation, the supported targets are 64-bit", sz))
+			r.Count("second_configuration_functions", len(p32.ModuleFuncs()))
+		}
+	}
 	r.Count("framing_decoders", len(singleDecoders))
 	r.Count("framing_encoders", len(encs))
 }
